@@ -226,7 +226,7 @@ def phase_case(arg):
         with open(lay.plan, "w") as f:
             # (names required more than once, by several buildpacks: the plan the build logic is shown lists them as the file does, in every process)
             f.write("".join('[[entries]]\nname = "%s"\n[entries.metadata]\nfrom = %d\n' % (n, k) for k, n in enumerate(["x", "node", "y", "node", "x", "node", "z", "y"])))
-        st2, marker2, err2 = lay.run("build", lay.build_args(), lay.env(), script)
+        st2, marker2, err2 = lay.run("build", lay.build_args(), lay.env(), dict(script, dump=lay.dump))
         snap = vp.snapshot(lay.layers)
         try:
             snap[b"<the buildpack plan the build logic was shown>"] = ("f", 0, json.dumps(json.load(open(lay.dump)).get("plan"), sort_keys=True).encode())
